@@ -21,13 +21,14 @@ RULE = (
     "exhaustive: all DFA-legal kind sequences of length 1..5 (quick) / 1..6 (thorough) x {window 1,3,5,11} x {median 3, median 9, bilateral 0.5, "
     "bilateral 6.0} on a 20x30 image; generated: legal pipelines with suffixes, windows 1-11, filter sizes 1-9, "
     "sigma_space 0.3-20, image shapes from 8x8 to 200x300, one extra inserted step for monotonicity; filters: direct "
-    "construction with step 1-3. Non-trivial = the pipeline has >= 1 cumulative and >= 1 non-cumulative entry; class "
+    "construction with step 1-3; saved: pandora.main on small GeoTIFF pairs with runnable pipelines, the input file carrying "
+    "no / another pipeline's / a junk 'margins' section, cfg/config.json read back. Non-trivial = the pipeline has >= 1 cumulative and >= 1 non-cumulative entry; class "
     "'non-cumulative-dominates' = a non-cumulative margin larger than the cumulative sum. distinct = distinct payload."
 )
 ASSUMPTIONS = [
     "optimisation is exercised through the harness identity stub, which inherits the documented 40-pixel margin of "
     "AbstractOptimization",
-    "the clause 'equals margins in the saved configuration' is decided in C19's flow",
+    "the clause 'equals margins in the saved configuration' is decided by the 'saved' check here and again in C19's flow",
 ]
 
 SIDES = ("left", "up", "right", "down")
@@ -238,8 +239,76 @@ def filter_body(ctx: Ctx, p: dict) -> None:
     ctx.case(p, nontrivial=step > 1, classes=[p["cfg"]["filter_method"]])
 
 
+# ---------------------------------------------------------------------------------------------------------------
+# "... and are what the command-line run stores under 'margins' in the saved configuration"
+# ---------------------------------------------------------------------------------------------------------------
+@st.composite
+def saved_cases(draw):
+    meas = draw(st.sampled_from(["sad", "ssd", "zncc", "census"]))
+    w = draw(st.sampled_from([3, 5])) if meas == "census" else draw(st.sampled_from([1, 3, 5, 7]))
+    steps = [["matching_cost", {"matching_cost_method": meas, "window_size": w}]]
+    if draw(st.integers(0, 3)) == 0:
+        steps.append(["aggregation", {"aggregation_method": "cbca"}])
+    steps.append(["disparity", {"disparity_method": "wta"}])
+    nf = 0
+    for _ in range(draw(st.integers(0, 3))):
+        k = draw(st.sampled_from(["median", "bilateral", "refinement"]))
+        if k == "refinement":
+            if not any(n.startswith("refinement") for n, _ in steps):
+                steps.append(["refinement", {"refinement_method": "vfit"}])
+            continue
+        name = "filter" if nf == 0 else f"filter.{nf}"
+        nf += 1
+        steps.append([name, {"filter_method": "median", "filter_size": draw(st.sampled_from([3, 5, 7]))} if k == "median" else
+                      {"filter_method": "bilateral", "sigma_space": draw(st.sampled_from([0.5, 1.0, 2.0]))}])
+    if draw(st.booleans()):
+        steps.append(["validation", {"validation_method": "cross_checking_accurate"}])
+    # the input file may be a configuration saved by an earlier run and edited since: its 'margins' section is stale
+    stale = draw(st.sampled_from([None, "other-pipeline", "junk"]))
+    return {"steps": steps, "stale": stale, "shape": draw(st.sampled_from([[14, 18], [20, 16]])),
+            "stale_w": draw(st.sampled_from([1, 9, 11])), "stale_f": draw(st.sampled_from([3, 9]))}
+
+
+def saved_body(ctx: Ctx, p: dict) -> None:
+    import json
+    import os
+
+    import pandora
+
+    from .. import files
+
+    steps, shape = p["steps"], tuple(p["shape"])
+    exp, mixed, dom = expected_margins(steps, shape)
+    with files.scratch_dir("c20") as d:
+        img = (np.arange(shape[0] * shape[1]).reshape(shape) * 7 % 23).astype(np.float32)
+        left = files.write_tiff(os.path.join(d, "left.tif"), img)
+        right = files.write_tiff(os.path.join(d, "right.tif"), np.roll(img, 1, axis=1))
+        user = {"input": {"left": {"img": left, "disp": [-2, 2]}, "right": {"img": right}},
+                "pipeline": {n: copy.deepcopy(c) for n, c in steps}}
+        if p["stale"] == "other-pipeline":
+            other = [["matching_cost", {"matching_cost_method": "sad", "window_size": p["stale_w"]}], ["disparity", {}],
+                     ["filter", {"filter_method": "median", "filter_size": p["stale_f"]}]]
+            user = {"margins": expected_margins(other, shape)[0], **user}
+        elif p["stale"] == "junk":
+            user["margins"] = {"global margins": {"left": 99, "up": 99, "right": 99, "down": 99}}
+        cfg_path = os.path.join(d, "user.json")
+        with open(cfg_path, "w") as f:
+            json.dump(user, f)
+        out = os.path.join(d, "out")
+        pandora.main(cfg_path, out, False)
+        with open(os.path.join(out, "cfg", "config.json")) as f:
+            saved = json.load(f)
+    got = saved.get("margins")
+    if got != exp:
+        ctx.violation("C20/saved-margins-wrong", f"config.json holds {got}, the pipeline's margins are {exp} (input file margins "
+                                                 f"section: {p['stale']}) steps={steps}")
+    ctx.judged += 1
+    ctx.case(p, nontrivial=bool(mixed), classes=[f"input-margins-section={p['stale']}"] + (["non-cumulative-dominates"] if dom else []))
+
+
 CHECKS = [
     Check("exhaustive", exhaustive_body, enumerate=enumerate_cases, exhaustive=True, budget={"quick": (8, 0), "thorough": (16, 0)}),
     Check("generated", gen_body, strategy=gen_cases, budget={"quick": (6, 120), "thorough": (16, 4000)}),
     Check("filters", filter_body, strategy=filter_cases, budget={"quick": (2, 300), "thorough": (4, 5000)}),
+    Check("saved", saved_body, strategy=saved_cases, budget={"quick": (4, 8), "thorough": (8, 100)}),
 ]
